@@ -805,9 +805,40 @@ func writeTranslations(repo, outdir string, fset *token.FileSet, parse func(stri
 		if fd == nil {
 			allBad = append(allBad, "missing function InternalEscapeBytes")
 		} else {
-			txt, bad := translateLoopFunc(fset, fd, "InternalEscapeBytes", bconsts, cints)
+			txt, bad := translateLoopFunc(fset, fd, "InternalEscapeBytes", bconsts, cints, nil)
 			fmt.Fprintf(&sb, "/-! translated from internal/escape/escape.go: func InternalEscapeBytes (loop mode) -/\n%s\n", txt)
 			allBad = append(allBad, bad...)
+		}
+	}
+	// internal/rfmt/print.go: the number parsers of doPrintf's directive parser
+	{
+		f := parse("internal/rfmt/print.go")
+		methods = nil
+		emit("internal/rfmt/print.go", "", "tooLarge", "tooLarge", nil, nil)
+		callees := map[string]lpCallee{
+			"tooLarge": {lean: "tooLarge", params: []ltype{tInt}, rets: []ltype{tBool}},
+		}
+		for _, n := range []string{"parsenum", "parseArgNumber"} {
+			fd := find(f, "", n)
+			if fd == nil {
+				allBad = append(allBad, "missing function "+n)
+				continue
+			}
+			txt, bad := translateLoopFunc(fset, fd, n, nil, map[string]int64{}, callees)
+			fmt.Fprintf(&sb, "/-! translated from internal/rfmt/print.go: func %s (loop mode) -/\n%s\n", n, txt)
+			allBad = append(allBad, bad...)
+			var ps, rs []ltype
+			for _, fl := range fd.Type.Params.List {
+				for range fl.Names {
+					ps = append(ps, goTypeOf(fl.Type))
+				}
+			}
+			for _, fl := range fd.Type.Results.List {
+				for range fl.Names {
+					rs = append(rs, goTypeOf(fl.Type))
+				}
+			}
+			callees[n] = lpCallee{lean: n, params: ps, rets: rs, option: true}
 		}
 	}
 	sb.WriteString("end Redact.Trans\n")
